@@ -389,6 +389,15 @@ func (g *dcGen) pkg(cur string, ndecl int) {
 				g.add(&DcDecl{Pkg: cur, Name: g.name("T"), Kind: "alias", Under: t})
 				g.feats["defined-over-named-struct"] = true
 			}
+		case k == 10 && len(g.prog.Decls)%3 == 2:
+			// a defined type over a builtin with hand-written methods (a handle, a counter): assignment is not its copy
+			h := &DcDecl{Pkg: cur, Name: g.name("H"), Kind: "alias", Under: &DcTE{K: "builtin", Name: "uint32"}, Custom: []string{"ptr", "val"}[len(g.prog.Decls)%2]}
+			g.add(h)
+			g.feats["hand-written-methods-on-defined-builtin"] = true
+			// … and its owner: the handle as a member, as slice element and as map value
+			ref := func() *DcTE { return &DcTE{K: "named", Name: h.QName()} }
+			g.add(&DcDecl{Pkg: cur, Name: g.name("S"), Kind: "struct", Fields: []DcField{{Name: "Main", T: ref()},
+				{Name: "Others", T: &DcTE{K: "slice", Elem: ref()}}, {Name: "Named", T: &DcTE{K: "map", Key: &DcTE{K: "builtin", Name: "string"}, Elem: ref()}}}})
 		case k == 10:
 			d := &DcDecl{Pkg: cur, Name: g.name("C"), Kind: "struct", Custom: r.Pick([]string{"ptr", "val", "into"}),
 				Fields: []DcField{{Name: "P", T: &DcTE{K: "ptr", Elem: &DcTE{K: "builtin", Name: "int"}}}, {Name: "L", T: &DcTE{K: "slice", Elem: &DcTE{K: "builtin", Name: "string"}}}}}
@@ -595,6 +604,9 @@ func declSource(d *DcDecl, cur string, mainPath string) string {
 	}
 	n := d.Name
 	body := "\tCustomCalls++\n\t*out = *in\n\tif in.P != nil {\n\t\tx := *in.P\n\t\tout.P = &x\n\t}\n\tif in.L != nil {\n\t\tout.L = append([]string{}, in.L...)\n\t}\n"
+	if d.Kind == "alias" {
+		body = "\tCustomCalls++\n\t*out = *in\n"
+	}
 	switch d.Custom {
 	case "ptr":
 		fmt.Fprintf(&b, "func (in *%s) DeepCopyInto(out *%s) {\n%s}\n\nfunc (in *%s) DeepCopy() *%s {\n\tif in == nil {\n\t\treturn nil\n\t}\n\tout := new(%s)\n\tin.DeepCopyInto(out)\n\treturn out\n}\n\n", n, n, body, n, n, n)
@@ -642,7 +654,7 @@ func (p *DcProgram) CheckerSource(generated []string, seed int64, rounds int) st
 			if d.Pkg == "dep" {
 				q = "dep." + d.Name
 			}
-			fmt.Fprintf(&b, "\treflect.TypeOf(%s{}): true,\n", q)
+			fmt.Fprintf(&b, "\treflect.TypeOf((*%s)(nil)).Elem(): true,\n", q)
 		}
 	}
 	fmt.Fprintf(&b, "}\n\nfunc customCalls() int { return p.CustomCalls%s }\n\nconst seed, rounds = %d, %d\n", map[bool]string{true: " + dep.CustomCalls", false: ""}[p.HasDep], seed, rounds)
